@@ -117,6 +117,15 @@ func ExecSched(sc sim.Script) *sim.Outcome {
 	for k, v := range t.model {
 		initial[k] = v
 	}
+	// judged saves, second variant: the trie object under test is opened on the prepared state (a fresh change
+	// collector: what the tasks replace are nodes that existed before, so the delete list fills), every save goes
+	// to a private copy of that state, with or without deletes
+	var baseNodes []nodeRef
+	if s.SaveJudge && s.Reopen && !lossy {
+		baseNodes = reach(t.db, t.mpt.GetRoot())
+		t.tc = w.newCache()
+		t.mpt = util.NewMerklePatriciaTrie(t.db, util.Sequence(t.ver), t.mpt.GetRoot(), t.tc)
+	}
 	var saveDB util.NodeDB
 	if w.pndb != nil {
 		saveDB = w.pndb
@@ -280,7 +289,10 @@ func ExecSched(sc sim.Script) *sim.Outcome {
 					}
 					if s.SaveJudge {
 						target := util.NewMemoryNodeDB()
-						t.mpt.SaveChanges(ctx, target, false)
+						for _, n := range baseNodes {
+							target.PutNode(n.key, n.node.CloneNode())
+						}
+						t.mpt.SaveChanges(ctx, target, s.Reopen && op.N == 1)
 						savesOf[ti] = append(savesOf[ti], saveRec{call, simrt.Stamp(), target, op.K})
 					} else {
 						t.mpt.SaveChanges(ctx, saveDB, false)
